@@ -776,6 +776,20 @@ class Interp:
                     continue
                 acc = r if acc is False else SBool(z3.Or(acc.t, r.t))
             return acc
+        if isinstance(container, SSeq) and getattr(self, "quant_skolem", False) and not z3.is_int_value(z3.simplify(container.len)):
+            # Skolem mode (elements may be objects whose == forks): either some witness element equals the item, or none does
+            # (recorded; to be used at the index terms the scenario needs: instantiate_forall)
+            if self.ctx.choose(2, "in") == 0:
+                w = self.ctx.int("w")
+                self.ctx.assume(z3.And(w >= 0, w < container.len))
+                if not self.truth(sym_eq(self, container.at(w), item)):
+                    raise Infeasible()
+                self.quant_witnesses = getattr(self, "quant_witnesses", [])
+                self.quant_witnesses.append(w)
+                return True
+            self.forall_facts = getattr(self, "forall_facts", [])
+            self.forall_facts.append((SSeq(container.len, lambda i: sym_eq(self, container.at(i), item), name="in"), False))
+            return False
         if isinstance(container, SSeq):
             j = self.ctx.int("j")
             el = container.at(j)
